@@ -34,6 +34,24 @@ with opt_a (a : alt) : alt :=
   | ACons b a' => ACons (opt_b b) (opt_a a')
   end.
 
+(* c{n,} = n copies of c followed by c* *)
+Fixpoint atl_b (b : branch) : branch :=
+  match b with
+  | BEnd cs => BEnd cs
+  | BGrp cs cap a b' => BGrp cs cap (atl_a a) (atl_b b')
+  | BQ cs c (QBr ds BrOpen) rel b' => BQ (cs ++ repeat c (N.to_nat (dec ds))) c QStar rel (atl_b b')
+  | BQ cs c k rel b' => BQ cs c k rel (atl_b b')
+  | BAn cs eol b' => BAn cs eol (atl_b b')
+  end
+with atl_a (a : alt) : alt :=
+  match a with
+  | AOne b => AOne (atl_b b)
+  | ACons b a' => ACons (atl_b b) (atl_a a')
+  end.
+
+Example atl_text : show_a (atl_a (AOne (BQ [120] 97 (QBr [51] BrOpen) true (BEnd [121]))))%N = [120; 97; 97; 97; 97; 42; 63; 121]%N.
+Proof. reflexivity. Qed.
+
 Example plus_text : show_a (plus_a (AOne (BQ [120] 97 QPlus false (BEnd [121]))))%N = [120; 97; 97; 42; 121]%N.
 Proof. reflexivity. Qed.
 Example opt_text : show_a (opt_a (AOne (BQ [120] 97 QOpt false (BEnd [121]))))%N = [120; 40; 97; 124; 41; 121]%N.
@@ -49,9 +67,9 @@ Proof.
   - intros cs H. exact H.
   - intros cs cap a IHa b IHb H. cbn [plus_b ok_b] in *. apply andb_true_iff in H as [H Hb]. apply andb_true_iff in H as [H Ha].
     rewrite H, (IHa Ha), (IHb Hb). reflexivity.
-  - intros cs c k rel b IHb H. cbn [ok_b] in H. apply andb_true_iff in H as [H Hb]. apply andb_true_iff in H as [H Hr].
-    apply andb_true_iff in H as [Hcs Hc].
-    destruct k; cbn [plus_b ok_b]; rewrite ?Hcs, ?Hc, ?Hr, ?(IHb Hb), ?(forallb_app_one cs c Hcs Hc); reflexivity.
+  - intros cs c k rel b IHb H. cbn [ok_b] in H. apply andb_true_iff in H as [H Hb]. apply andb_true_iff in H as [H Hk].
+    apply andb_true_iff in H as [H Hr]. apply andb_true_iff in H as [Hcs Hc].
+    destruct k; cbn [plus_b ok_b]; rewrite ?Hcs, ?Hc, ?Hr, ?Hk, ?(IHb Hb), ?(forallb_app_one cs c Hcs Hc); reflexivity.
   - intros cs eol b IHb H. cbn [plus_b ok_b] in *. apply andb_true_iff in H as [H Hb]. rewrite H, (IHb Hb). reflexivity.
   - intros b IHb H. exact (IHb H).
   - intros b IHb a IHa H. cbn [plus_a ok_a] in *. apply andb_true_iff in H as [H1 H2]. rewrite (IHb H1), (IHa H2). reflexivity.
@@ -64,12 +82,31 @@ Proof.
   - intros cs H. exact H.
   - intros cs cap a IHa b IHb H. cbn [opt_b ok_b] in *. apply andb_true_iff in H as [H Hb]. apply andb_true_iff in H as [H Ha].
     rewrite H, (IHa Ha), (IHb Hb). reflexivity.
-  - intros cs c k rel b IHb H. cbn [ok_b] in H. apply andb_true_iff in H as [H Hb]. apply andb_true_iff in H as [H Hr].
-    apply andb_true_iff in H as [Hcs Hc].
-    destruct k, rel; cbn [opt_b ok_b ok_a forallb orb]; rewrite ?Hcs, ?Hc, ?Hr, ?(IHb Hb); reflexivity.
+  - intros cs c k rel b IHb H. cbn [ok_b] in H. apply andb_true_iff in H as [H Hb]. apply andb_true_iff in H as [H Hk].
+    apply andb_true_iff in H as [H Hr]. apply andb_true_iff in H as [Hcs Hc].
+    destruct k, rel; cbn [opt_b ok_b ok_a forallb orb]; rewrite ?Hcs, ?Hc, ?Hr, ?Hk, ?(IHb Hb); reflexivity.
   - intros cs eol b IHb H. cbn [opt_b ok_b] in *. apply andb_true_iff in H as [H Hb]. rewrite H, (IHb Hb). reflexivity.
   - intros b IHb H. exact (IHb H).
   - intros b IHb a IHa H. cbn [opt_a ok_a] in *. apply andb_true_iff in H as [H1 H2]. rewrite (IHb H1), (IHa H2). reflexivity.
+Qed.
+
+Lemma forallb_app_rep cs c k : forallb ordinary cs = true -> ordinary c = true -> forallb ordinary (cs ++ repeat c k) = true.
+Proof.
+  intros H1 H2. rewrite forallb_app, H1. induction k as [|k IH]; [reflexivity|]. cbn [repeat forallb andb] in *. rewrite H2. exact IH.
+Qed.
+Lemma atl_ok xpath : (forall b, ok_b xpath b = true -> ok_b xpath (atl_b b) = true)
+                     /\ (forall a, ok_a xpath a = true -> ok_a xpath (atl_a a) = true).
+Proof.
+  apply branch_alt_ind.
+  - intros cs H. exact H.
+  - intros cs cap a IHa b IHb H. cbn [atl_b ok_b] in *. apply andb_true_iff in H as [H Hb]. apply andb_true_iff in H as [H Ha].
+    rewrite H, (IHa Ha), (IHb Hb). reflexivity.
+  - intros cs c k rel b IHb H. cbn [ok_b] in H. apply andb_true_iff in H as [H Hb]. apply andb_true_iff in H as [H Hk].
+    apply andb_true_iff in H as [H Hr]. apply andb_true_iff in H as [Hcs Hc].
+    destruct k as [| | |ds [| |d2]]; cbn [atl_b ok_b]; rewrite ?Hcs, ?Hc, ?Hr, ?Hk, ?(IHb Hb), ?(forallb_app_rep cs c _ Hcs Hc); reflexivity.
+  - intros cs eol b IHb H. cbn [atl_b ok_b] in *. apply andb_true_iff in H as [H Hb]. rewrite H, (IHb Hb). reflexivity.
+  - intros b IHb H. exact (IHb H).
+  - intros b IHb a IHa H. cbn [atl_a ok_a] in *. apply andb_true_iff in H as [H1 H2]. rewrite (IHb H1), (IHa H2). reflexivity.
 Qed.
 
 Section Laws.
@@ -127,6 +164,38 @@ Proof.
     + exists 0. split; [cbn; lia|]. split; [cbn; lia|]. reflexivity.
 Qed.
 
+Lemma map_rep {A B} (f : A -> B) x k : map f (repeat x k) = repeat (f x) k.
+Proof. induction k as [|k IH]; [reflexivity|]. cbn [repeat map]. rewrite IH. reflexivity. Qed.
+
+Lemma lit_app2 cs cs2 m q : m <= n ->
+  (In q (lit input ci (cs ++ cs2) m) <-> exists k, In k (lit input ci cs m) /\ In q (lit input ci cs2 k)).
+Proof.
+  intros Hm. rewrite <- (SE_run' (cs ++ cs2) m q Hm). rewrite map_app.
+  rewrite (SE_app input fl). rewrite (SE_in input fl). split.
+  - intros (k & Hk & Hq). exists k. split; [apply (SE_run' cs m k Hm); exact Hk|].
+    assert (k <= n) by (apply (SE_run' cs m k Hm) in Hk; apply lit_le in Hk; tauto).
+    apply (SE_run' cs2 k q); auto.
+  - intros (k & Hk & Hq). exists k. split; [apply (SE_run' cs m k Hm); exact Hk|].
+    assert (k <= n) by (apply lit_le in Hk; tauto).
+    apply (SE_run' cs2 k q); auto.
+Qed.
+
+(* c{n,} = c^n c*  (greedy and reluctant alike: the set of end positions is the same) *)
+Lemma atl_step c ds rel m q : m <= n ->
+  (In q (Dq input ci multi c (QBr ds BrOpen) rel m)
+   <-> exists k, In k (lit input ci (repeat c (N.to_nat (dec ds))) m) /\ In q (Dq input ci multi c QStar rel k)).
+Proof.
+  intros Hm. unfold Dq. cbn [qmin qmaxo]. fold fl.
+  set (k0 := N.to_nat (dec ds)). replace (dec ds) with (N.of_nat k0) by (subst k0; apply N2Nat.id).
+  pose proof (law_at_least fl input (RChar c) k0 (negb rel) I m q Hm) as L. rewrite L.
+  rewrite ends_seq, seq_reach_app.
+  assert (Run : forall k, seq_reach fl input (repeat (RChar c) k0) m k <-> In k (lit input ci (repeat c k0) m)).
+  { intros k. rewrite <- (SE_run' (repeat c k0) m k Hm), map_rep. symmetry. apply (ends_seq fl input). }
+  cbn [seq_reach]. split.
+  - intros (k & Hk & q' & Hq & ->). exists k. split; [apply Run; exact Hk|exact Hq].
+  - intros (k & Hk & Hq). exists k. split; [apply Run; exact Hk|]. exists q. split; [exact Hq|reflexivity].
+Qed.
+
 Lemma flat_map_eqv {A} (f g : A -> list nat) (l1 l2 : list A) q :
   (forall x, In x l1 <-> In x l2) -> (forall x, In x l1 -> (forall y, In y (f x) <-> In y (g x))) ->
   (In q (flat_map f l1) <-> In q (flat_map g l2)).
@@ -136,21 +205,24 @@ Proof.
   - split; [apply H1; exact Hx|apply (H2 x (proj2 (H1 x) Hx)); exact Hq].
 Qed.
 
-Theorem plus_D : (forall b p q, p <= n -> (In q (Db input ci multi (plus_b b) p) <-> In q (Db input ci multi b p)))
-              /\ (forall a p q, p <= n -> (In q (Da input ci multi (plus_a a) p) <-> In q (Da input ci multi a p))).
+Theorem plus_D xpath :
+     (forall b, ok_b xpath b = true -> forall p q, p <= n -> (In q (Db input ci multi (plus_b b) p) <-> In q (Db input ci multi b p)))
+  /\ (forall a, ok_a xpath a = true -> forall p q, p <= n -> (In q (Da input ci multi (plus_a a) p) <-> In q (Da input ci multi a p))).
 Proof.
   apply branch_alt_ind.
-  - intros cs p q Hp. reflexivity.
-  - intros cs cap a IHa b IHb p q Hp. cbn [plus_b Db].
+  - intros cs _ p q Hp. reflexivity.
+  - intros cs cap a IHa b IHb Hok p q Hp. cbn [ok_b] in Hok. apply andb_true_iff in Hok as [Hok Okb].
+    apply andb_true_iff in Hok as [_ Oka]. cbn [plus_b Db].
     apply flat_map_eqv.
-    + intros x. apply flat_map_eqv; [reflexivity|]. intros k Hk y. apply IHa. apply lit_le in Hk. tauto.
-    + intros x Hx y. apply IHb. apply in_flat_map in Hx as (k & Hk & Hx). apply lit_le in Hk.
-      eapply (proj2 (D_le input ci multi)); [|exact Hx]. tauto.
-  - intros cs c k rel b IHb p q Hp.
-    assert (Same : forall k0, In q (Db input ci multi (BQ cs c k0 rel (plus_b b)) p) <-> In q (Db input ci multi (BQ cs c k0 rel b) p)).
-    { intros k0. cbn [Db]. apply flat_map_eqv; [reflexivity|]. intros x Hx y. apply IHb.
-      apply in_flat_map in Hx as (k1 & Hk1 & Hx). apply lit_le in Hk1. eapply (Dq_le input ci multi); [|exact Hx]. tauto. }
-    destruct k; cbn [plus_b]; try apply Same.
+    + intros x. apply flat_map_eqv; [reflexivity|]. intros k Hk y. apply (IHa Oka). apply lit_le in Hk. tauto.
+    + intros x Hx y. apply (IHb Okb). apply in_flat_map in Hx as (k & Hk & Hx). apply lit_le in Hk.
+      eapply (proj2 (D_le input ci multi xpath)); [apply (proj2 (plus_ok xpath)); exact Oka| |exact Hx]. tauto.
+  - intros cs c k rel b IHb Hok p q Hp. cbn [ok_b] in Hok. apply andb_true_iff in Hok as [Hok Okb].
+    apply andb_true_iff in Hok as [_ Hkq].
+    assert (Same : forall k0, okq k0 = true -> In q (Db input ci multi (BQ cs c k0 rel (plus_b b)) p) <-> In q (Db input ci multi (BQ cs c k0 rel b) p)).
+    { intros k0 Hk0q. cbn [Db]. apply flat_map_eqv; [reflexivity|]. intros x Hx y. apply (IHb Okb).
+      apply in_flat_map in Hx as (k1 & Hk1 & Hx). apply lit_le in Hk1. eapply (Dq_le input ci multi); [exact Hk0q| |exact Hx]. tauto. }
+    destruct k; cbn [plus_b]; try (apply Same; exact Hkq).
     (* QPlus *)
     cbn [Db]. apply flat_map_eqv.
     + intros x. rewrite !in_flat_map. split.
@@ -158,38 +230,80 @@ Proof.
         exists k0. split; [exact Hk0|]. apply plus_step; [apply lit_le in Hk0; tauto|]. eauto.
       * intros (k0 & Hk0 & Hx). apply plus_step in Hx; [|apply lit_le in Hk0; tauto]. destruct Hx as (k1 & Hk1 & Hx).
         exists k1. split; [|exact Hx]. apply (lit_app cs c p k1 Hp). eauto.
-    + intros x Hx y. apply IHb. apply in_flat_map in Hx as (k1 & Hk1 & Hx). apply lit_le in Hk1.
-      eapply (Dq_le input ci multi); [|exact Hx]. tauto.
-  - intros cs eol b IHb p q Hp. cbn [plus_b Db]. apply flat_map_eqv; [reflexivity|]. intros x Hx y. apply IHb.
+    + intros x Hx y. apply (IHb Okb). apply in_flat_map in Hx as (k1 & Hk1 & Hx). apply lit_le in Hk1.
+      eapply (Dq_le input ci multi); [|  |exact Hx]; [reflexivity|]. tauto.
+  - intros cs eol b IHb Hok p q Hp. cbn [ok_b] in Hok. apply andb_true_iff in Hok as [_ Okb].
+    cbn [plus_b Db]. apply flat_map_eqv; [reflexivity|]. intros x Hx y. apply (IHb Okb).
     apply in_flat_map in Hx as (k1 & Hk1 & Hx). apply lit_le in Hk1. eapply (Dan_le input ci multi); [|exact Hx]. tauto.
-  - intros b IHb p q Hp. exact (IHb p q Hp).
-  - intros b IHb a IHa p q Hp. cbn [plus_a Da]. rewrite !in_app_iff, (IHb p q Hp), (IHa p q Hp). reflexivity.
+  - intros b IHb Hok p q Hp. exact (IHb Hok p q Hp).
+  - intros b IHb a IHa Hok p q Hp. cbn [ok_a] in Hok. apply andb_true_iff in Hok as [Okb Oka].
+    cbn [plus_a Da]. rewrite !in_app_iff, (IHb Okb p q Hp), (IHa Oka p q Hp). reflexivity.
 Qed.
 
-Theorem opt_D : (forall b p q, p <= n -> (In q (Db input ci multi (opt_b b) p) <-> In q (Db input ci multi b p)))
-             /\ (forall a p q, p <= n -> (In q (Da input ci multi (opt_a a) p) <-> In q (Da input ci multi a p))).
+Theorem opt_D xpath :
+     (forall b, ok_b xpath b = true -> forall p q, p <= n -> (In q (Db input ci multi (opt_b b) p) <-> In q (Db input ci multi b p)))
+  /\ (forall a, ok_a xpath a = true -> forall p q, p <= n -> (In q (Da input ci multi (opt_a a) p) <-> In q (Da input ci multi a p))).
 Proof.
   apply branch_alt_ind.
-  - intros cs p q Hp. reflexivity.
-  - intros cs cap a IHa b IHb p q Hp. cbn [opt_b Db].
+  - intros cs _ p q Hp. reflexivity.
+  - intros cs cap a IHa b IHb Hok p q Hp. cbn [ok_b] in Hok. apply andb_true_iff in Hok as [Hok Okb].
+    apply andb_true_iff in Hok as [_ Oka]. cbn [opt_b Db].
     apply flat_map_eqv.
-    + intros x. apply flat_map_eqv; [reflexivity|]. intros k Hk y. apply IHa. apply lit_le in Hk. tauto.
-    + intros x Hx y. apply IHb. apply in_flat_map in Hx as (k & Hk & Hx). apply lit_le in Hk.
-      eapply (proj2 (D_le input ci multi)); [|exact Hx]. tauto.
-  - intros cs c k rel b IHb p q Hp.
-    assert (Same : forall k0 r0, In q (Db input ci multi (BQ cs c k0 r0 (opt_b b)) p) <-> In q (Db input ci multi (BQ cs c k0 r0 b) p)).
-    { intros k0 r0. cbn [Db]. apply flat_map_eqv; [reflexivity|]. intros x Hx y. apply IHb.
-      apply in_flat_map in Hx as (k1 & Hk1 & Hx). apply lit_le in Hk1. eapply (Dq_le input ci multi); [|exact Hx]. tauto. }
-    destruct k, rel; cbn [opt_b]; try apply Same.
+    + intros x. apply flat_map_eqv; [reflexivity|]. intros k Hk y. apply (IHa Oka). apply lit_le in Hk. tauto.
+    + intros x Hx y. apply (IHb Okb). apply in_flat_map in Hx as (k & Hk & Hx). apply lit_le in Hk.
+      eapply (proj2 (D_le input ci multi xpath)); [apply (proj2 (opt_ok xpath)); exact Oka| |exact Hx]. tauto.
+  - intros cs c k rel b IHb Hok p q Hp. cbn [ok_b] in Hok. apply andb_true_iff in Hok as [Hok Okb].
+    apply andb_true_iff in Hok as [_ Hkq].
+    assert (Same : forall k0 r0, okq k0 = true -> In q (Db input ci multi (BQ cs c k0 r0 (opt_b b)) p) <-> In q (Db input ci multi (BQ cs c k0 r0 b) p)).
+    { intros k0 r0 Hk0q. cbn [Db]. apply flat_map_eqv; [reflexivity|]. intros x Hx y. apply (IHb Okb).
+      apply in_flat_map in Hx as (k1 & Hk1 & Hx). apply lit_le in Hk1. eapply (Dq_le input ci multi); [exact Hk0q| |exact Hx]. tauto. }
+    destruct k, rel; cbn [opt_b]; try (apply Same; exact Hkq).
     (* c? *)
     cbn [Db Da]. apply flat_map_eqv.
     + intros x. apply flat_map_eqv; [reflexivity|]. intros k0 Hk0 y. symmetry. apply opt_step. apply lit_le in Hk0. tauto.
-    + intros x Hx y. apply IHb. apply in_flat_map in Hx as (k1 & Hk1 & Hx). apply lit_le in Hk1.
+    + intros x Hx y. apply (IHb Okb). apply in_flat_map in Hx as (k1 & Hk1 & Hx). apply lit_le in Hk1.
       assert (k1 <= n) by tauto. apply in_app_iff in Hx as [Hx|Hx]; apply lit_le in Hx; tauto.
-  - intros cs eol b IHb p q Hp. cbn [opt_b Db]. apply flat_map_eqv; [reflexivity|]. intros x Hx y. apply IHb.
+  - intros cs eol b IHb Hok p q Hp. cbn [ok_b] in Hok. apply andb_true_iff in Hok as [_ Okb].
+    cbn [opt_b Db]. apply flat_map_eqv; [reflexivity|]. intros x Hx y. apply (IHb Okb).
     apply in_flat_map in Hx as (k1 & Hk1 & Hx). apply lit_le in Hk1. eapply (Dan_le input ci multi); [|exact Hx]. tauto.
-  - intros b IHb p q Hp. exact (IHb p q Hp).
-  - intros b IHb a IHa p q Hp. cbn [opt_a Da]. rewrite !in_app_iff, (IHb p q Hp), (IHa p q Hp). reflexivity.
+  - intros b IHb Hok p q Hp. exact (IHb Hok p q Hp).
+  - intros b IHb a IHa Hok p q Hp. cbn [ok_a] in Hok. apply andb_true_iff in Hok as [Okb Oka].
+    cbn [opt_a Da]. rewrite !in_app_iff, (IHb Okb p q Hp), (IHa Oka p q Hp). reflexivity.
+Qed.
+
+Theorem atl_D xpath :
+     (forall b, ok_b xpath b = true -> forall p q, p <= n -> (In q (Db input ci multi (atl_b b) p) <-> In q (Db input ci multi b p)))
+  /\ (forall a, ok_a xpath a = true -> forall p q, p <= n -> (In q (Da input ci multi (atl_a a) p) <-> In q (Da input ci multi a p))).
+Proof.
+  apply branch_alt_ind.
+  - intros cs _ p q Hp. reflexivity.
+  - intros cs cap a IHa b IHb Hok p q Hp. cbn [ok_b] in Hok. apply andb_true_iff in Hok as [Hok Okb].
+    apply andb_true_iff in Hok as [_ Oka]. cbn [atl_b Db].
+    apply flat_map_eqv.
+    + intros x. apply flat_map_eqv; [reflexivity|]. intros k Hk y. apply (IHa Oka). apply lit_le in Hk. tauto.
+    + intros x Hx y. apply (IHb Okb). apply in_flat_map in Hx as (k & Hk & Hx). apply lit_le in Hk.
+      eapply (proj2 (D_le input ci multi xpath)); [apply (proj2 (atl_ok xpath)); exact Oka| |exact Hx]. tauto.
+  - intros cs c k rel b IHb Hok p q Hp. cbn [ok_b] in Hok. apply andb_true_iff in Hok as [Hok Okb].
+    apply andb_true_iff in Hok as [_ Hkq].
+    assert (Same : forall k0, okq k0 = true -> In q (Db input ci multi (BQ cs c k0 rel (atl_b b)) p) <-> In q (Db input ci multi (BQ cs c k0 rel b) p)).
+    { intros k0 Hk0q. cbn [Db]. apply flat_map_eqv; [reflexivity|]. intros x Hx y. apply (IHb Okb).
+      apply in_flat_map in Hx as (k1 & Hk1 & Hx). apply lit_le in Hk1. eapply (Dq_le input ci multi); [exact Hk0q| |exact Hx]. tauto. }
+    destruct k as [| | |ds [| |d2]]; cbn [atl_b]; try (apply Same; exact Hkq).
+    (* {n,} *)
+    cbn [Db]. apply flat_map_eqv.
+    + intros x. rewrite !in_flat_map. split.
+      * intros (k1 & Hk1 & Hx). apply (lit_app2 cs _ p k1 Hp) in Hk1. destruct Hk1 as (k0 & Hk0 & Hk1).
+        exists k0. split; [exact Hk0|]. apply atl_step; [apply lit_le in Hk0; tauto|]. eauto.
+      * intros (k0 & Hk0 & Hx). apply atl_step in Hx; [|apply lit_le in Hk0; tauto]. destruct Hx as (k1 & Hk1 & Hx).
+        exists k1. split; [|exact Hx]. apply (lit_app2 cs _ p k1 Hp). eauto.
+    + intros x Hx y. apply (IHb Okb). apply in_flat_map in Hx as (k1 & Hk1 & Hx). apply lit_le in Hk1.
+      eapply (Dq_le input ci multi); [|  |exact Hx]; [reflexivity|]. tauto.
+  - intros cs eol b IHb Hok p q Hp. cbn [ok_b] in Hok. apply andb_true_iff in Hok as [_ Okb].
+    cbn [atl_b Db]. apply flat_map_eqv; [reflexivity|]. intros x Hx y. apply (IHb Okb).
+    apply in_flat_map in Hx as (k1 & Hk1 & Hx). apply lit_le in Hk1. eapply (Dan_le input ci multi); [|exact Hx]. tauto.
+  - intros b IHb Hok p q Hp. exact (IHb Hok p q Hp).
+  - intros b IHb a IHa Hok p q Hp. cbn [ok_a] in Hok. apply andb_true_iff in Hok as [Okb Oka].
+    cbn [atl_a Da]. rewrite !in_app_iff, (IHb Okb p q Hp), (IHa Oka p q Hp). reflexivity.
 Qed.
 
 Lemma Dmatch_eqv a1 a2 :
@@ -213,7 +327,7 @@ End Laws.
 Section E2E.
 Variable rw : alt -> alt.
 Hypothesis rw_ok : forall xpath a, ok_a xpath a = true -> ok_a xpath (rw a) = true.
-Hypothesis rw_D : forall input ci multi a p q, p <= length input ->
+Hypothesis rw_D : forall xpath input ci multi a, ok_a xpath a = true -> forall p q, p <= length input ->
   (In q (Da input ci multi (rw a) p) <-> In q (Da input ci multi a p)).
 
 Theorem rewrite_same_verdict fl a input :
@@ -228,7 +342,7 @@ Proof.
   destruct (compile_grammar_D fl a input Hok Hq Hw Hfit) as (prog & E & M).
   destruct (compile_grammar_D fl (rw a) input (rw_ok _ _ Hok) Hq Hw Hfit) as (prog' & E' & M').
   exists prog, prog'. split; [exact E|]. split; [exact E'|].
-  rewrite (Dmatch_eqv input (f_case fl) (f_multi fl) (rw a) a (rw_D input (f_case fl) (f_multi fl) a)) in M'.
+  rewrite (Dmatch_eqv input (f_case fl) (f_multi fl) (rw a) a (rw_D (f_xpath fl) input (f_case fl) (f_multi fl) a Hok)) in M'.
   destruct (matches prog input 0 st0); destruct (matches prog' input 0 st0); try contradiction; auto; congruence.
 Qed.
 End E2E.
@@ -243,7 +357,7 @@ Theorem plus_law_end_to_end fl a input :
 Proof.
   apply (rewrite_same_verdict plus_a).
   - intros xpath a0. apply (proj2 (plus_ok xpath)).
-  - intros input0 ci multi a0 p q. apply (proj2 (plus_D input0 ci multi)).
+  - intros xpath input0 ci multi a0. apply (proj2 (plus_D input0 ci multi xpath)).
 Qed.
 
 Theorem opt_law_end_to_end fl a input :
@@ -256,5 +370,19 @@ Theorem opt_law_end_to_end fl a input :
 Proof.
   apply (rewrite_same_verdict opt_a).
   - intros xpath a0. apply (proj2 (opt_ok xpath)).
-  - intros input0 ci multi a0 p q. apply (proj2 (opt_D input0 ci multi)).
+  - intros xpath input0 ci multi a0. apply (proj2 (opt_D input0 ci multi xpath)).
+Qed.
+
+(* c{n,} and c...cc* (n copies, then a star), from the pattern text, with the counts as written in decimal *)
+Theorem at_least_law_end_to_end fl a input :
+  ok_a (f_xpath fl) a = true -> f_literal fl = false -> f_ws fl = false -> (N.of_nat (length input) < umax)%N ->
+  exists prog prog', compile true fl (show_a a) = Ok prog /\ compile true fl (show_a (atl_a a)) = Ok prog'
+    /\ match matches prog input 0 st0, matches prog' input 0 st0 with
+       | MTrue _, MTrue _ | MFalse _, MFalse _ => True
+       | _, _ => False
+       end.
+Proof.
+  apply (rewrite_same_verdict atl_a).
+  - intros xpath a0. apply (proj2 (atl_ok xpath)).
+  - intros xpath input0 ci multi a0. apply (proj2 (atl_D input0 ci multi xpath)).
 Qed.
